@@ -15,7 +15,11 @@ ASSUMPTIONS = [
     "oracle: vf/spec/cdb.py (Appendix A of DESIGN.md), whole-CDB comparison with the spec encoder: length, opcode, service action, every field, every other bit zero",
     "arguments that size a buffer the constructor allocates (allocation length, READ/WRITE/READ CD transfer length) are capped at 2^22 (quick) / 2^24 (thorough) bytes in the main pass; a second 'wide' pass covers their whole alphabet (up to 2^32-1) with bytearray(n) inside pyscsi.pyscsi.scsi_command shadowed by a length-only stand-in for n > 2^20 (harness-side, process-local; buffers are C03's subject and are judged there without the shim)",
     "parameter-list-length fields are judged against len(cmd.dataout) here (position only); the list itself is C05's subject",
+    "each (class, table) partition runs in a freshly forked process in which the first use of the class is a dictionary-level marshall_cdb/unmarshall_cdb with all fields at their maximum, then the constructors; every command is re-examined after the next one was built",
 ]
+
+
+MAXTASKS = 1      # every partition runs in a freshly forked worker: the library is imported anew, nothing an earlier partition did survives
 
 
 def bounds(tier):
@@ -138,6 +142,17 @@ def run_partition(part, tier, seed):
         # still one evaluation so the partition is visible
         return acc
     prev = None
+    if not wide:
+        # first use of this class (and of its operation code) in this process is marshall_cdb/unmarshall_cdb on a dictionary, *before*
+        # any constructor has run: whatever that leaves behind must not show in the CDBs built afterwards
+        from vf.props import c02
+        cls = CS.get_class(name)
+        d = {f: (1 << w) - 1 for (f, _, _, w) in c02.lib_fields(name)}
+        d["opcode"] = S.CLASSES[name]["op"]
+        try:
+            cls.unmarshall_cdb(cls.marshall_cdb(d))
+        except Exception:   # noqa: BLE001 - judged by C02
+            pass
     if wide:
         pts = ((p, r) for p, r in CS.points(name, min(b["k"], 2), 1 << 64) if any(
             S.CLASSES[name]["args"].get(a) in S.ALLOCATING and v > b["maxbuf"] // (3072 if name == "ReadCd" else 1) for a, v in p.items()))
